@@ -938,6 +938,77 @@ func mutateBytes(rt *rapid.T, s string) string {
 	return string(b)
 }
 
+var c14NumberForms = []string{"0", "-0", "7", "-7", "120", "0.5", "-0.5", "12.25", "1e2", "1E2", "1e+2", "1E+2", "1e-2", "1E-2", "-2E+3", "25E-1", "2.5e3", "2.5E3", "2.5E-3", "0e0", "0E0", "0.0", "1.0E1", "1e0", "100E-2", "9007199254740993", "-9223372036854775808", "1.7976931348623157e308", "5e-324",
+	`"\u0041"`, `"\u00e9"`, `"\u00E9"`, `"\ud83d\ude00"`, `"\uD83D\uDE00"`, `"\/"`, `"\b\f\n\r\t"`, `"\\\""`, `"\u0000"`, `"\u001f"`, `"\u2028"`, "true", "false", "null", "[]", "{}", `""`}
+
+// genJSONText draws a well-formed JSON text straight from the RFC 8259 grammar: number spellings with either
+// exponent marker and sign, every string escape, white space around every token.
+func genJSONText(rt *rapid.T, d int) string {
+	ws := func() string {
+		return rapid.SampledFrom([]string{"", "", "", " ", "\n", "\t", "\r\n", "  "}).Draw(rt, "ws")
+	}
+	num := func() string {
+		var b strings.Builder
+		if rapid.Bool().Draw(rt, "neg") {
+			b.WriteByte('-')
+		}
+		b.WriteString(rapid.SampledFrom([]string{"0", "1", "7", "12", "305", "9007199254740993"}).Draw(rt, "int"))
+		if rapid.IntRange(0, 2).Draw(rt, "frac") == 0 {
+			b.WriteString("." + rapid.SampledFrom([]string{"0", "5", "25", "125", "000", "10"}).Draw(rt, "fd"))
+		}
+		if rapid.IntRange(0, 2).Draw(rt, "exp") == 0 {
+			b.WriteString(rapid.SampledFrom([]string{"e", "E"}).Draw(rt, "e"))
+			b.WriteString(rapid.SampledFrom([]string{"", "+", "-"}).Draw(rt, "es"))
+			b.WriteString(rapid.SampledFrom([]string{"0", "1", "2", "02", "10"}).Draw(rt, "ed"))
+		}
+		return b.String()
+	}
+	str := func() string {
+		n := rapid.IntRange(0, 4).Draw(rt, "slen")
+		var b strings.Builder
+		b.WriteByte('"')
+		for i := 0; i < n; i++ {
+			b.WriteString(rapid.SampledFrom([]string{"a", "k", "0", " ", "é", "世", "😀", `\"`, `\\`, `\/`, `\b`, `\f`, `\n`, `\r`, `\t`, `\u0041`, `\u00e9`, `\u00E9`, `\ud83d\ude00`, `\u001f`, "/", "'"}).Draw(rt, "ch"))
+		}
+		b.WriteByte('"')
+		return b.String()
+	}
+	var val func(d int) string
+	val = func(d int) string {
+		k := rapid.IntRange(0, 7).Draw(rt, "vk")
+		if d <= 0 && k >= 6 {
+			k = k % 6
+		}
+		switch k {
+		case 0, 1:
+			return num()
+		case 2:
+			return str()
+		case 3:
+			return "true"
+		case 4:
+			return "false"
+		case 5:
+			return "null"
+		case 6:
+			n := rapid.IntRange(0, 3).Draw(rt, "an")
+			var parts []string
+			for i := 0; i < n; i++ {
+				parts = append(parts, ws()+val(d-1)+ws())
+			}
+			return "[" + strings.Join(parts, ",") + ws() + "]"
+		default:
+			n := rapid.IntRange(0, 3).Draw(rt, "on")
+			var parts []string
+			for i := 0; i < n; i++ {
+				parts = append(parts, ws()+fmt.Sprintf("\"k%d\"", i)+ws()+":"+ws()+val(d-1)+ws())
+			}
+			return "{" + strings.Join(parts, ",") + ws() + "}"
+		}
+	}
+	return ws() + val(d) + ws()
+}
+
 func TestC14(t *testing.T) {
 	cfg := sb.LoadConfig("C14")
 	rec := sb.NewRec(cfg)
@@ -1006,6 +1077,21 @@ func TestC14(t *testing.T) {
 			}
 		}
 	}
+	// every spelling RFC 8259 allows for a number, an escape and insignificant white space (foreign encoders
+	// use forms this project's own encoder never emits), alone and inside containers
+	for _, n := range c14NumberForms {
+		for _, wrap := range []string{"%s", "[%s]", "{\"k\":%s}", " [ 1 , %s\t,\n{ \"a\" : [ %s ] } ]\r\n"} {
+			d := strings.ReplaceAll(wrap, "%s", n)
+			idx++
+			if cfg.Mine(idx) {
+				rec.NonTrivial("doc", d)
+				rec.Label("enum.rfc-form", d)
+				for _, f := range c14JudgeDecode(pool, rec, d, "rfc-form") {
+					rec.Fail(f.Key, f.Detail, f.Case)
+				}
+			}
+		}
+	}
 	c14Protowire(t, cfg, rec, pool, dl)
 	rec.Flush()
 	total := 15000 / cfg.NShards
@@ -1030,6 +1116,12 @@ func TestC14(t *testing.T) {
 			m := mutateBytes(rt, doc)
 			rec.NonTrivial("d", m)
 			fs = append(fs, c14JudgeDecode(pool, rec, m, "mutant-json")...)
+		}
+		if rapid.IntRange(0, 3).Draw(rt, "grammar") == 0 {
+			doc := genJSONText(rt, 3)
+			rec.NonTrivial("d", doc)
+			rec.Label("decode:grammar-json", doc)
+			fs = append(fs, c14JudgeDecode(pool, rec, doc, "grammar-json")...)
 		}
 		if ser, ok := refSerialize(v); ok {
 			fs = append(fs, c14JudgeDecode(pool, rec, ser, "valid-serialize")...)
